@@ -23,8 +23,21 @@ def main():
 
     B.install_tawazi_hooks()
     B.Settings.seed = int(job.get("seed", 0))
-    from twzmon import jobs
+    from twzmon import jobs, probes
+    import threading
 
+    jobs.CURRENT["out"] = out
+    limit = float(job.get("op_watchdog_s", 90))
+
+    def hangwatch():
+        while True:
+            time.sleep(1.0)
+            now = time.monotonic()
+            for th, (label, t_start) in list(probes.CURRENT_OPS.items()):
+                if now - t_start > limit:
+                    jobs.on_hang(label, th, now - t_start)
+
+    threading.Thread(target=hangwatch, daemon=True, name="twz-hangwatch").start()
     t0 = time.time()
     try:
         res = jobs.dispatch(job)
